@@ -106,7 +106,7 @@ Failed(t) == CASE t.kind = "poly" -> FailedPoly(t)
                [] t.kind = "ncg" -> FailedNcg(t)
                [] t.kind = "perc" -> FailedPerc(t)
                [] OTHER -> {"unknown_kind"}
-TInit == tid = 0 /\ mo = <<>> /\ todo = {} /\ open = {} /\ caches = <<>> /\ hist = <<>> /\ phase = "judge"
+TInit == tid = 0 /\ mo = <<>> /\ todo = {} /\ open = {} /\ decided = {} /\ edits = 0 /\ caches = <<>> /\ hist = <<>> /\ phase = "judge"
 TNext == /\ tid < Len(Traces) /\ tid' = tid + 1
          /\ LET f == Failed(Traces[tid'])
                 d == IF Traces[tid'].kind = "perc" THEN DriftPerc(Traces[tid']) ELSE {}
